@@ -21,6 +21,7 @@ import (
 //   A spf frame creator idhex : Store.AddRoot(spf, event{Frame, Creator, ID})
 //   G f                       : Store.GetFrameRoots(f)
 //   R                         : Orderer.Reset(epoch+1, validators) = dropEpochDB + openEpochDB
+//   B                         : restart = new Store + Orderer over the same main/epoch DBs, Bootstrap
 // The store is set up as a node does: NewStore, ApplyGenesis, NewOrderer(...).Bootstrap (which opens
 // the epoch DB and reads frame 1 once).  Observation per op: "; ok" or "; g<frame:validator:idhex,...>".
 
@@ -77,11 +78,19 @@ func c33RunRaw(in []string) (obs []string) {
 			panic(r)
 		}
 	}()
-	epochDBs := 0
-	store := abft.NewStore(memorydb.New(), func(idx.Epoch) kvdb.Store {
-		epochDBs++
-		return memorydb.New()
-	}, crit, abft.StoreConfig{Cache: abft.StoreCacheConfig{RootsNum: uint(num), RootsFrames: frames}})
+	// the node's databases outlive a Store: the main DB and one DB per epoch
+	mainDB := memorydb.New()
+	epochDBs := map[idx.Epoch]kvdb.Store{}
+	producer := func(e idx.Epoch) kvdb.Store {
+		if db, ok := epochDBs[e]; ok {
+			return db
+		}
+		db := memorydb.New()
+		epochDBs[e] = db
+		return db
+	}
+	cfg := abft.StoreConfig{Cache: abft.StoreCacheConfig{RootsNum: uint(num), RootsFrames: frames}}
+	store := abft.NewStore(mainDB, producer, crit, cfg)
 	vb := pos.NewBuilder()
 	for v := 1; v <= 4; v++ {
 		vb.Set(idx.ValidatorID(v), 1)
@@ -131,6 +140,16 @@ func c33RunRaw(in []string) (obs []string) {
 				}
 				obs = append(obs, ";", "g"+strings.Join(toks, ","))
 			}
+		case "B":
+			// restart: a new Store (fresh cache) and Orderer over the same databases.  With roots
+			// in frames 1..3 the bootstrap's election replay ends with the quorum sanity error
+			// (no root forkless-causes another under the stub index); the Store stays usable.
+			store = abft.NewStore(mainDB, producer, crit, cfg)
+			orderer = abft.NewOrderer(store, c33source{}, c33index{}, crit, abft.LiteConfig())
+			if err := orderer.Bootstrap(abft.OrdererCallbacks{}); err != nil {
+				vu.Stat("restart_bootstrap_err")
+			}
+			obs = append(obs, ";", "ok")
 		case "R":
 			epoch++
 			if err := orderer.Reset(epoch, vals); err != nil {
@@ -190,8 +209,10 @@ func c33GenOps(r *rand.Rand, n int) []string {
 				id = fmt.Sprintf("%x", b)
 			}
 			out = append(out, "A", strconv.Itoa(spf), strconv.Itoa(fr), strconv.Itoa(1+r.Intn(4)), id)
-		case x < 94:
+		case x < 91:
 			out = append(out, "G", strconv.Itoa(c33Frame(r)))
+		case x < 95:
+			out = append(out, "B")
 		default:
 			out = append(out, "R")
 		}
@@ -214,7 +235,7 @@ func init() {
 					// fork roots in one slot, duplicate registration, multi-frame root, then epoch switch
 					emit(strconv.Itoa(a), strconv.Itoa(b), ";", "G", "1", ";", "A", "0", "1", "1", c33ids[1], ";", "A", "0", "1", "1", c33ids[7],
 						";", "A", "0", "1", "1", c33ids[1], ";", "G", "1", ";", "A", "0", "3", "2", c33ids[4], ";", "G", "2", ";", "G", "3", ";", "G", "1",
-						";", "A", "1", "2", "3", c33ids[5], ";", "G", "2", ";", "R", ";", "G", "1", ";", "G", "2", ";", "A", "0", "1", "4", c33ids[2], ";", "G", "1")
+						";", "A", "1", "2", "3", c33ids[5], ";", "G", "2", ";", "B", ";", "G", "3", ";", "G", "1", ";", "G", "2", ";", "R", ";", "G", "1", ";", "G", "2", ";", "A", "0", "1", "4", c33ids[2], ";", "G", "1")
 				}
 			}
 			for i := 0; i < n; i++ {
